@@ -470,19 +470,36 @@ func genK8sStream(cs *Case, rng *rand.Rand, src int, stream string, n int) []*Li
 	var out []*Line
 	short := map[string]string{"stdout": "o", "stderr": "e"}[stream]
 	// one container log line longer than split_event_size (13 chunks of 16 KB)
-	hugeAt := -1
+	hugeAt, hugeN := -1, 13
 	if cs.BigChunks && n > 20 {
 		hugeAt = rng.Intn(n - 15)
+	}
+	if cs.HugeLine {
+		// a line whose joined text exceeds 512 KiB but stays below split_event_size
+		// minus the look-ahead (41 x 16 KiB = 656 KiB), early in the stream, followed
+		// by ordinary lines written in partial chunks: buffers that were grown for
+		// the huge line are reused for them
+		hugeN = 41
+		hugeAt = rng.Intn(4)
+		n += hugeN
 	}
 	for i := 0; i < n; i++ {
 		ln := &Line{Src: src, Stream: stream, Idx: i, ID: idOf(src, short, i)}
 		ln.Partial = rng.Intn(100) < cs.PartialPct && i < n-1
 		ln.Content = tagOf(src, short, i) + k8sPayload(rng, cs)
-		if hugeAt >= 0 && i >= hugeAt && i <= hugeAt+12 {
-			ln.Partial = i < hugeAt+12
-			ln.Content = tagOf(src, short, i) + strings.Repeat(pick(rng, "x", "yz", "é"), 16000)[:16000]
+		if hugeAt >= 0 && i >= hugeAt && i < hugeAt+hugeN {
+			ln.Partial = i < hugeAt+hugeN-1
+			sz := 16000
+			if cs.HugeLine {
+				sz = 16384
+			}
+			ln.Content = tagOf(src, short, i) + strings.Repeat(pick(rng, "x", "yz", "é"), sz)[:sz]
 			out = append(out, ln)
 			continue
+		}
+		if cs.HugeLine && i >= hugeAt+hugeN && i < hugeAt+hugeN+3 {
+			// the line right behind the huge one is written in three chunks
+			ln.Partial = i < hugeAt+hugeN+2
 		}
 		if ln.Partial && cs.PipeMax == 0 {
 			// hostile endings of a partial chunk: a literal backslash followed by 'n'
@@ -585,7 +602,19 @@ func markPauses(cs *Case, rng *rand.Rand, lines [][]*Line) {
 // case generation
 // ---------------------------------------------------------------------------
 
+// genHugeCase: k8s case of the "huge line" family (default split_event_size, no
+// max_event_size, 30 s time-out); every third one runs on exactly one processor.
+func genHugeCase(rng *rand.Rand, seed int64, j int) Case {
+	cs := genCase(rng, seed, "k8s-huge", j)
+	cs.Name = fmt.Sprintf("k8s-huge-%d", j)
+	return cs
+}
+
 func genCase(rng *rand.Rand, seed int64, kind string, i int) Case {
+	huge := kind == "k8s-huge"
+	if huge {
+		kind = "k8s"
+	}
 	cs := Case{Kind: kind, Seed: seed, Name: fmt.Sprintf("%s-%d", kind, i)}
 	cs.Procs = []int{1, 2, 4}[rng.Intn(3)]
 	// exactly one processor only with one (source, stream): a single processor
@@ -597,7 +626,10 @@ func genCase(rng *rand.Rand, seed int64, kind string, i int) Case {
 	cs.Feeders = 1 + rng.Intn(3)
 	cs.Hostile = rng.Intn(4)
 	cs.EventTimeoutMs = 30000
-	short := i%3 == 2
+	short := i%3 == 2 && !huge
+	if huge {
+		cs.SingleProc = i%3 == 0
+	}
 	if short {
 		cs.EventTimeoutMs = []int{100, 200, 300}[rng.Intn(3)]
 		cs.Pauses = 3 + rng.Intn(3)
@@ -639,6 +671,10 @@ func genCase(rng *rand.Rand, seed int64, kind string, i int) Case {
 		cs.PartialPct = []int{20, 50, 75}[rng.Intn(3)]
 		cs.SplitEventSize = 1000000
 		switch {
+		case huge:
+			cs.HugeLine = true
+			cs.PerStream = 16 + rng.Intn(30)
+			cs.PartialPct = []int{50, 75}[rng.Intn(2)]
 		case short:
 			// time-outs only with the default limits
 		case i%3 == 0:
@@ -652,6 +688,9 @@ func genCase(rng *rand.Rand, seed int64, kind string, i int) Case {
 				cs.CutOffField = "_cropped"
 			}
 		}
+	}
+	if cs.HugeLine {
+		cs.Sources = 1 + rng.Intn(2)
 	}
 	if cs.SingleProc {
 		cs.Sources, cs.Feeders = 1, 1
